@@ -105,6 +105,22 @@ def cases(seed, tier):
         else:
             prof = gen.rand_profile(rng, allow_odd=True)
         prof['banner'] = banner
+        r3 = gen.case_rng(seed, ID, i, 'repeats')
+        if r3.random() < 0.12 and all(prof.get(c_) for c_ in CATS):
+            # a peer may list a name several times: the rating (and so the level of the recommendation) is that of the algorithm, not of
+            # the number of times it is listed
+            cat = r3.choice(['enc', 'enc', 'mac', 'kex', 'key'])
+            pool = list(prof[cat])
+            if cat == 'enc':
+                pool += ['chacha20-poly1305@openssh.com', 'aes128-cbc'] * 2
+            if cat == 'mac':
+                pool += ['hmac-sha2-256-etm@openssh.com'] * 2
+            n_ = r3.choice(pool or ['none'])
+            reps = [n_] * r3.choice([1, 4, 9, 10, 12, 30])
+            at = r3.randrange(len(prof[cat]) + 1)
+            prof[cat] = prof[cat][:at] + reps + prof[cat][at:]
+            if r3.random() < 0.5:
+                prof['kex'] = [k_ for k_ in prof['kex'] if not k_.startswith('kex-strict-')]
         c = {'product': product, 'version': version, 'profile': prof, 'opts': rng.choice([[], ['-n'], ['-b'], ['-v']]), 'pseed': rng.getrandbits(32)}
         r2 = gen.case_rng(seed, ID, i, 'client')
         if r2.random() < 0.12:
